@@ -9,6 +9,7 @@ import (
 	"encoding/binary"
 	"encoding/json"
 	"fmt"
+	"io"
 	"sort"
 	"strings"
 
@@ -513,6 +514,42 @@ func runPathSelInput(rep *Report, in PathSelInput, cf *CaseFile) {
 						if !allowed[c.KeyString()] {
 							fail("C06", "entity-selector-extra", "the entity selector requested a block that is neither on the path nor part of the matched entity", nil, c.String())
 							break
+						}
+					}
+				}
+			}
+			if in.Target == 2 && want != nil && want.File && wo.Class == "ok" && len(bt.own[want.ID]) > 1 {
+				// a block of the matched file that storage does not deliver - whatever the refusal looks like, also the
+				// traversal's own "skip this" value: consuming the bytes has to fail (C06)
+				var victims []string
+				for k := range bt.own[want.ID] {
+					if k != bt.cids[want.ID].KeyString() {
+						victims = append(victims, k)
+					}
+				}
+				sort.Strings(victims)
+				if len(victims) > 2 {
+					victims = victims[:2]
+				}
+				for _, v := range victims {
+					for flavor, ferr := range []error{FaultErr{1}, traversal.SkipMe{}, fmt.Errorf("blockstore: %w", io.ErrUnexpectedEOF)} {
+						v, ferr := v, ferr
+						bt.st.ReadHook = func(c cid.Cid) error {
+							if c.KeyString() == v {
+								return ferr
+							}
+							return nil
+						}
+						eo := guard(func() error {
+							return prog.WalkMatching(root, sel, func(p traversal.Progress, n datamodel.Node) error {
+								return unixfsnode.BytesConsumingMatcher(p, n)
+							})
+						})
+						bt.st.ReadHook = nil
+						if eo.Class == "ok" {
+							fail("C06", "entity-selector-partial", "the entity walk with BytesConsumingMatcher succeeded although a block of the matched file was not delivered", "error", fmt.Sprintf("ok (refusal %d: %v)", flavor, ferr))
+						} else if eo.Class == "panic" {
+							fail("C13", "entity-panic", "the entity traversal with BytesConsumingMatcher panicked", nil, "panic")
 						}
 					}
 				}
